@@ -97,7 +97,10 @@ def run_ka(res: Result, seed: int) -> None:
     out: Dict[str, Any] = {}
     with simnet.Sim(seed & 0xFFFF) as sim:
         async def main():
-            host = sim.net.add_host("H", "10.0.0.1")
+            # (an instance with several sender sockets sends every datagram of a split query on each of them)
+            layout = rng.choice(["single", "split", "split"])
+            desc["layout"] = layout
+            host = sim.net.add_host("H", "10.0.0.1", "fe80::1" if layout == "split" and rng.random() < 0.5 else None, layout=layout)
             azc = await sim.start_host(host)
             zc = azc.zeroconf
             ttl = rng.choice([1125, 2000, 4500])
@@ -140,6 +143,19 @@ def run_ka(res: Result, seed: int) -> None:
         for esc in sim.net.escapes[:1]:
             viol("c13.known_answers", "loop_exception", repr(esc)[:800])
         batches = queries_of(sim, out["mark"])
+        # every sender socket carries the same datagrams (a split query is complete on each of them)
+        per_fd: Dict[int, List[bytes]] = {}
+        for e in sim.net.trace[out["mark"]:]:
+            if e["host"] == "H" and e["mcast"]:
+                per_fd.setdefault(e["fd"], []).append(e["data"])
+        if len(per_fd) > 1:
+            res.mon("c13.every_socket")
+            ref = max(per_fd.values(), key=len)
+            for fd, lst in sorted(per_fd.items()):
+                if lst != ref:
+                    viol("c13.known_answers", "query_not_complete_on_every_socket", "socket %d sent %d of the %d multicast datagrams another sender socket sent (split "
+                         "queries must be complete on every socket)" % (fd, len(lst), len(ref)), sockets=len(per_fd))
+                    break
         for bi, (t, msgs) in enumerate(batches[:4]):
             res.mon("c13.known_answers")
             # records whose half-life instant equals the query instant to within float rounding may go either way
